@@ -1,9 +1,11 @@
 \* schedule generator: every complete word with the outcome the property requires
 SPECIFICATION Spec
-INVARIANT RevokedNotServed NoServiceAfterRevoke RegistryShape PendingOnlyAdmitted Emit
+INVARIANT RevokedNotServed NoServiceAfterRevoke RegistryShape PendingOnlyAdmitted LockDiscipline Emit
 CHECK_DEADLOCK FALSE
 CONSTANTS
   Keys = {"A", "B"}
   KeyOf <- MC_KeyOf
   ConnOrder <- MC_Order
   FixRevoke = TRUE
+  TryLock = FALSE
+  PromptRet = TRUE
